@@ -1,0 +1,24 @@
+//go:build verif
+
+// Contracts for govc (contract-based deductive verification, /verif). Comment-only file:
+// it is compiled only under the build tag "verif" and contains no code.
+
+package parser
+
+//@ type CallExpr
+//@   props C17
+//@   immutable Fun, Args
+//@ type Ident
+//@   props C17
+//@   immutable Name
+
+//@ func prototypeCheck
+//@   props C17
+//@   nopanic
+//@   requires expr != nil && expr.Fun != nil
+//@   requires forall k int :: 0 <= k && k < len(expr.Args) ==> expr.Args[k] != nil
+//@   modifies nothing
+//@   ensures[accepted_calls_are_known_and_have_the_prototype_arity] result0 == nil ==> has(funcProtos, expr.Fun.Name) && len(expr.Args) == len(funcProtos[expr.Fun.Name])
+//@   ensures[accepted_calls_have_the_prototype_argument_kinds] result0 == nil ==> (forall k int :: 0 <= k && k < len(expr.Args) ==> expr.Args[k].Kind == funcProtos[expr.Fun.Name][k])
+//@   loop 1 invariant 0 <= rangeindex + 1 && rangeindex + 1 <= len(argsType) && (forall k int :: 0 <= k && k <= rangeindex ==> expr.Args[k].Kind == argsType[k])
+//@   ensures[unknown_primitives_rejected] !has(funcProtos, expr.Fun.Name) ==> result0 != nil
